@@ -69,7 +69,7 @@ def run(R: vlib.Run):
               "skipback); non-trivial = at least two blocks or a rejected plan")
     R.trusted += ["Coq 8.16.1 kernel + vm_compute", "tools/py2coq straight-line translator (read_plan arithmetic regenerated from readers.py)",
                   "hand model of the read_plan loop body (Model/Plan.v) and of FileReader (Model/Stream.v), tied by the correspondence run",
-                  "composed theorems: byte-wide samples (plan_sound) and packed depths 1/2/4 (plan_sound_packed = plan o C03 unpack); 16/32-bit values by oracle (the plan theorem is depth independent)"]
+                  "composed theorems: byte-wide samples (plan_sound) and packed depths 1/2/4 (plan_sound_packed = plan o C03 unpack); 16/32-bit: C01_plan_sound_items (plan_sound at nchans*itemsize bytes per sample), byte-level correspondence plus value oracle"]
     R.assume += ["files contain a whole number of samples", "the OS returns all available bytes on a regular-file read"]
     R.prove("Props/C01.v")
     R.need(["Model/Plan.vo"])
@@ -108,6 +108,13 @@ def run(R: vlib.Run):
                                 corr.append((nch, x, splits, gulp, start, nsamps, skipback, tr))
                             elif nbits in (1, 2, 4) and (gulp + start + nsamps + skipback) % 3 == 0:
                                 corrp.append((nch, nbits, x, splits, gulp, start, nsamps, skipback, tr))
+                            elif nbits in (16, 32) and (gulp + start + nsamps + skipback) % 3 == 0:
+                                # byte level: a sample is nchans*itemsize bytes (C01_plan_sound with nch := samp_stride)
+                                isz = nbits // 8
+                                dt = filutil.dtype_for(nbits)
+                                xb = np.frombuffer(np.ascontiguousarray(x).astype(dt).tobytes(), dtype=np.uint8).reshape(x.shape[0], nch * isz)
+                                trb = (tr[0], [(b[0], b[1], np.frombuffer(np.ascontiguousarray(b[2]).tobytes(), dtype=np.uint8)) for b in tr[1]], tr[2])
+                                corr.append((nch * isz, xb, splits, gulp, start, nsamps, skipback, trb))
         # random larger cases
         for _ in range(60 if R.tier == "quick" else 600):
             nbits = rng.choice([1, 2, 4, 8, 8, 16, 32]); nch = NCH[nbits] * rng.choice([1, 2])
